@@ -121,10 +121,13 @@ class Exec:
             res["codes"] = codes
             res["code"] = max([abs(c) for c in codes] or [0])
         elif kind == "git":
-            r = w.git(repo, *[a.replace("{ROOT}", w.root) for a in op["argv"]], env=env, stdin=(op.get("stdin") or "").encode() or None,
-                      mode=op.get("mode"))
-            if op.get("cwd"):
-                pass
+            cwd = repo
+            if op.get("cwd") == "/":
+                cwd = "/"
+            elif op.get("cwd") and os.path.isdir(os.path.join(repo, op["cwd"])):
+                cwd = os.path.join(repo, op["cwd"])
+            r = w.git(cwd, *[a.replace("{ROOT}", w.root).replace("{REPO}", repo) for a in op["argv"]], env=env,
+                      stdin=(op.get("stdin") or "").encode() or None, mode=op.get("mode"))
             res.update(code=r.code, out=r.out, err=r.err, hang=r.hang)
         elif kind == "raw":
             r = w.raw_git(repo, *op["argv"], env=env)
